@@ -103,6 +103,27 @@ def gen(seed, tier):
         body = [g.any_frame(r.choice(ICAOS)) for _ in range(30)] + [sentinel()]
         cases.append(H("C01-x%d" % n, o, [seg(0, body), seg(1500, body)]))
         n += 1
+    # (f) Comm-B registers reach their decoders only on an existing row with the gate open: -R, or capability + BDS 1,7 advert.
+    #     Every enumerated small field takes all its values (e.g. the BDS 4,0 target-altitude source 0..3 with its status bit).
+    import props.C10 as c10
+    for rep in range(4 if tier == "quick" else 40):
+        for o in ({"R": 1}, {}, {"U": 1, "R": 1}, {"U": 1}):
+            icao = r.choice(ICAOS)
+            body = [g.f_df11(icao, ca=5), g.f_long(20, icao, None, bds17([9, 16, 24]))]
+            for src in (None, 0, 1, 2, 3):
+                for mode in (None, 0, 5, 7):
+                    body.append(g.f_long(r.choice([20, 21]), icao, None,
+                                         bds40(r.randint(1, 4095), r.randint(1, 4095), r.randint(1, 4095), 0, 0, src, mode)))
+            for _ in range(25):
+                kind, m = c10.plausible_regs(g)
+                if r.random() < 0.3:
+                    m = c10.spoil(g, kind, m)
+                body.append(g.f_long(r.choice([20, 21]), icao, None, m))
+            for _ in range(10):
+                body.append(g.f_long(r.choice([20, 21]), icao, None, r.getrandbits(56) | r.choice([0, 1 << 55])))
+            body.append(sentinel())
+            cases.append(H("C01-m%d" % n, o, [seg(0, body)]))
+            n += 1
     # (d) random histories with time steps (update paths, sweeps)
     for i in range(60 if tier == "quick" else 600):
         cases.append(g.random_history("C01-r%d" % i))
@@ -117,7 +138,7 @@ def oracle(parts, outcome, obs):
     oc = outcome.replace("+slow", "")
     if oc != "ok":
         return "implementation outcome '%s' (panic/abort/non-zero exit) %s" % (oc, obs[:200])
-    if parts[1] == "H" and ("C01-h" in parts[0] or "C01-j" in parts[0] or "C01-b" in parts[0] or "C01-x" in parts[0]):
+    if parts[1] == "H" and ("C01-h" in parts[0] or "C01-j" in parts[0] or "C01-b" in parts[0] or "C01-x" in parts[0] or "C01-m" in parts[0]):
         opts = pyspec.case_opts(parts)
         if not pyspec.passes_filter(opts, 17) or int(opts.get("d", "60")) <= 0:
             return None
